@@ -803,8 +803,7 @@ def to_quad(text):
 
 
 def driver_text(spec, rk=8):
-    return _driver_text(spec).replace("real(kind=8)", "real(kind=%d)" % rk) \
-        .replace("1.0d-9", "1.0d-9" if rk == 8 else "1.0d-22")
+    return _driver_text(spec).replace("real(kind=8)", "real(kind=%d)" % rk)
 
 
 def _driver_text(spec):
